@@ -69,8 +69,25 @@ def run(pid="C18", tier="quick", seed=0, cov=None) -> int:
     code = 0
     obligations = []
     violations = 0
+    # a shared location that is written through a setter is reported per CALL SITE of the setter, so that a new
+    # way of reaching a known leak is still a new violation
+    items = []
     for k in sorted(W, key=str):
-        name = f"frame:module_state_not_shared:{k[0]}::{k[1]}"
+        base = f"frame:module_state_not_shared:{k[0]}::{k[1]}"
+        if k in R and k not in ALLOWED:
+            writers = sorted({w.rsplit(":", 1)[0] for w in W[k]})
+            callers = set()
+            for wq in writers:
+                simple = an.funcs[wq].simple
+                for q in reach:
+                    if simple in an.funcs[q].calls and q != wq:
+                        callers.add(q)
+            if callers:
+                for cq in sorted(callers):
+                    items.append((k, f"{base}@via={cq}"))
+                continue
+        items.append((k, base))
+    for k, name in items:
         read = k in R
         status = "discharged"
         if read and k not in ALLOWED:
